@@ -298,6 +298,9 @@ class Circuit:
                 g.control = [mapping[ind] for ind in g.control]
 
         self._qubit_indices = set(new_indices)
+        # A fixed number of qubits follows the new labels: copies, inverses and repetitions must accept every gate
+        if self._qubits_simulated:
+            self._qubits_simulated = self.width
 
     def get_entangled_indices(self):
         """Return a list of unentangled sets of qubit indices. Each set includes indices
